@@ -1048,6 +1048,60 @@ Lemma copy_self_example :
   fst (run_fs fs_init ops_copy_self) = [RW true; RC true; RR (ROk [1; 2; 3]); RC false].
 Proof. vm_compute. auto. Qed.
 
+(* ----------------------------------------- listings under a done context *)
+Lemma names_eqb_refl : forall a, names_eqb a a = true.
+Proof. induction a as [|x a IH]; simpl; [reflexivity|]. rewrite beq_refl. exact IH. Qed.
+
+Theorem listing_complete_or_error m pre ctx_done : reachable m ->
+  deviating (files m) (OList pre) = false ->
+  list_ctx ctx_done m pre = (false, filter (fun n => has_prefix n pre) (map (fun kv => join_path (fst kv)) (files m))) /\
+  listing_ok (filter (fun n => has_prefix n pre) (map (fun kv => join_path (fst kv)) (files m)))
+             (list_ctx ctx_done m pre) = true.
+Proof.
+  intros Hr Hd. destruct (list_prefix_exact m pre Hr) as [_ [H _]]. specialize (H Hd).
+  unfold list_ctx, listing_ok. rewrite H. simpl. split; [reflexivity | apply names_eqb_refl].
+Qed.
+
+(* ------------------------------------------------- several buckets at once *)
+Lemma bid_eqb_spec a b : bid_eqb a b = true <-> a = b.
+Proof.
+  destruct a as [a1 a2], b as [b1 b2]. unfold bid_eqb. simpl.
+  rewrite andb_true_iff, !N.eqb_eq. split; [intros [-> ->]; reflexivity | intro H; injection H; auto].
+Qed.
+
+(* non-interference: in any interleaving, what a bucket answers and holds is
+   what it would answer and hold if its own operations were run alone *)
+Theorem world_independent : forall ops w b,
+  proj_res b (fst (run_world w ops)) = fst (run_fs (w b) (proj_ops b ops)) /\
+  snd (run_world w ops) b = snd (run_fs (w b) (proj_ops b ops)).
+Proof.
+  induction ops as [|[b0 o] ops IH]; intros w b; simpl; [auto|].
+  unfold step_world. simpl.
+  destruct (step_fs (w b0) o) as [r m'] eqn:Es.
+  specialize (IH (wput b0 m' w) b).
+  destruct (run_world (wput b0 m' w) ops) as [rs w''] eqn:Er. simpl in *.
+  unfold proj_ops, proj_res in *. simpl.
+  destruct (bid_eqb b0 b) eqn:Eb; simpl.
+  - apply bid_eqb_spec in Eb. subst b0. rewrite Es.
+    unfold wput in IH at 1 2. rewrite (proj2 (bid_eqb_spec b b) eq_refl) in IH.
+    destruct IH as [I1 I2].
+    destruct (run_fs m' (map snd (filter (fun bo => bid_eqb (fst bo) b) ops))) as [rs2 m2]. simpl in *.
+    rewrite I1. auto.
+  - unfold wput in IH at 1 2.
+    assert (Eb' : bid_eqb b b0 = false).
+    { destruct (bid_eqb b b0) eqn:E; [|reflexivity]. apply bid_eqb_spec in E. subst.
+      rewrite (proj2 (bid_eqb_spec b0 b0) eq_refl) in Eb. discriminate. }
+    rewrite Eb' in IH. exact IH.
+Qed.
+
+Theorem world_bucket_refines ops b :
+  proj_res b (fst (run_world world_init ops)) = fst (run_spec false [] (proj_ops b ops)) /\
+  files (snd (run_world world_init ops) b) = snd (run_spec false [] (proj_ops b ops)).
+Proof.
+  destruct (world_independent ops world_init b) as [H1 H2]. rewrite H1, H2. unfold world_init.
+  split; [apply refinement | apply refinement_state].
+Qed.
+
 (* ------------------------------------------ statements as used by Props/C18 *)
 Lemma spec_map_laws s p c :
   (forall s', spec_write s p c = (true, s') ->
